@@ -6,5 +6,5 @@ rm -rf "$d"; mkdir -p "$d"
 rev=""
 for p in "$@"; do
   if [ "$p" = "-R" ]; then rev="-R"; continue; fi
-  (cd "$d" && git apply $rev "$p") || { echo "APPLY FAILED $p"; exit 3; }
+  (cd "$d" && git apply $rev --include="src/*" --include="scripts/*" --include="notebooks/*" "$p") || { echo "APPLY FAILED $p"; exit 3; }
 done
